@@ -176,7 +176,8 @@ def project_interp(run) -> dict:
                        "mstate": _ms(e["mstate"]),
                        "rl": [{"id": i["id"], "start": i["start"] - 1_000_000 if i["start"] else 0,
                                "end": i["end"] - 1_000_000 if i["end"] > 0 else -1, "state": i["state"],
-                               "cancellable": i["cancellable"], "forcible": i["forcible"]} for i in rl],
+                               "cancellable": i["cancellable"], "forcible": i["forcible"],
+                               "cancelled": bool(i.get("cancelled", False)), "failed": bool(i.get("failed", False))} for i in rl],
                        "doneNodes": done_nodes})
     return {"id": run["id"], "family": run.get("family", ""), "ev": ev}
 
